@@ -279,7 +279,7 @@ def rule_E5(run_, pkg, an):
         seen.add(sig)
         n += 1
         p = path_str(ev.path)
-        ok = ev.kind == "AttrStore" and p in ("self._vertices[].pose", "self._vertices[].fixed") and ev.fn is fn
+        ok = ev.kind == "AttrStore" and p in ("self._vertices[].pose", "self._vertices[].fixed") and getattr(ev.fn, "_gs_class", None) == "Graph"
         if ok and p.endswith(".pose"):
             ok = isinstance(ev.node, ast.AugAssign) and isinstance(ev.node.op, ast.Add)
         run_.check(ok, "C15-E5/optimize/%s@%s" % (p, ev.fn.name), "C15-E5-optimize-footprint",
